@@ -715,9 +715,12 @@ func checkPool(c *checkCtx) {
 		c.sample("race pass: 200 ring histories")
 		return
 	}
+	armGenericABADetector()
+	defer verifPopHook.Store((*verifPopHooks)(nil))
 	n := c.pick(36, 1500)
 	for i := 0; i < n; i++ {
 		cs := genPoolCase(c, i)
+		suspectsBefore := abaSuspectCount()
 		res := runPoolCase(c, cs)
 		c.eval(1)
 		c.count("round trips", res.roundTrips)
@@ -758,7 +761,11 @@ func checkPool(c *checkCtx) {
 			c.inconclusiveCase(fmt.Sprintf("pool-%d", cs.Idx), res.inconcl)
 		}
 		if len(res.viol) > 0 {
-			c.violation(fmt.Sprintf("pool-%d", cs.Idx), map[string]interface{}{"case": cs, "violations": res.viol}, "%s", res.viol[0])
+			if d := abaSuspectCount() - suspectsBefore; d > 0 {
+				c.inconclusiveCase(fmt.Sprintf("pool-%d", cs.Idx), fmt.Sprintf("failure in an execution with %d allocator ABA suspect(s) (known finding F1 can corrupt any buffer): %s", d, res.viol[0]))
+			} else {
+				c.violation(fmt.Sprintf("pool-%d", cs.Idx), map[string]interface{}{"case": cs, "violations": res.viol}, "%s", res.viol[0])
+			}
 		}
 	}
 	// bare ring histories
@@ -773,6 +780,7 @@ func checkPool(c *checkCtx) {
 		}
 	}
 	c.setExtra("ring_porcupine_verdicts", verd)
+	c.setExtra("allocator_aba_suspects_seen", abaSuspectCount())
 	reports, ran, info := c.runRacePass(5 * time.Minute)
 	if ran {
 		c.count("race pass: reports", int64(len(reports)))
